@@ -206,6 +206,47 @@ func runC01(c *Ctx) {
 		}
 	}
 
+	// (3b) any other integer product of two run-time values can wrap silently
+	const rMul = "an integer multiplication of two run-time values in pacer code either involves hits and carries the MaxInt64/x < hits guard, or is the exempt schedule product Freq × (elapsed / Per), whose true value is the number of hits due and therefore cannot exceed a feasible hit count; any other product (e.g. elapsed × Freq before dividing) can wrap and make the pacer answer 'behind schedule' forever"
+	for _, fn := range fns {
+		hits := paramOfType(fn, types.Typ[types.Uint64])
+		eachInstr(fn, func(i ssa.Instruction) {
+			mul, ok := i.(*ssa.BinOp)
+			if !ok || mul.Op != token.MUL || !isInteger(mul.Type()) {
+				return
+			}
+			if _, isC := constInt(mul.X); isC {
+				return
+			}
+			if _, isC := constInt(mul.Y); isC {
+				return
+			}
+			key := fmt.Sprintf("mul-wrap:%s:%s", shortFn(fn), describeVal(mul.X)+"*"+describeVal(mul.Y))
+			depHits := hits != nil && (flowsFrom(mul.X, func(x ssa.Value) bool { return x == ssa.Value(hits) }) || flowsFrom(mul.Y, func(x ssa.Value) bool { return x == ssa.Value(hits) }))
+			if depHits {
+				return // rule (3) below decides it
+			}
+			isQuoOfElapsed := func(v ssa.Value) bool {
+				q, ok := stripConv(v).(*ssa.BinOp)
+				if !ok || q.Op != token.QUO {
+					return false
+				}
+				p, isP := stripConv(q.X).(*ssa.Parameter)
+				return isP && isNamedType(p.Type(), "time", "Duration")
+			}
+			isFreq := func(v ssa.Value) bool {
+				ld, ok := isLoad(stripConv(v))
+				if !ok {
+					return false
+				}
+				fa, ok := ld.X.(*ssa.FieldAddr)
+				return ok && fieldName(fa.X.Type(), fa.Field) == "Freq"
+			}
+			exempt := isQuoOfElapsed(mul.X) && isFreq(mul.Y) || isQuoOfElapsed(mul.Y) && isFreq(mul.X)
+			c.Check(exempt, key, rMul, "exempt: Freq × (elapsed / Per) = hits due", "unguarded product of two run-time integers can overflow and wrap", c.at(mul))
+		})
+	}
+
 	// (3) overflow guard
 	const rOv = "an integer product involving hits that becomes a Duration is guarded by MaxInt64/x < hits ⇒ stop=true"
 	for _, fn := range roots {
